@@ -170,7 +170,7 @@ PROPS["C11"] = {
             "renaming is a violation. Non-trivial = distinct (naming, history) pair.",
     "assumptions": ["observable answers are compared; internal ids and fresh-name numbering are not"],
     "quick": [{"variant": "default", "cases": 15000, "timeout": 600}],
-    "thorough": [{"variant": "default", "cases": 300000, "timeout": 3000}, {"variant": "explanations", "cases": 20000, "timeout": 3000}],
+    "thorough": [{"variant": "default", "cases": 1200000, "timeout": 3000}, {"variant": "explanations", "cases": 80000, "timeout": 3000}],
     "floors": {"any": {"histories_compared": 1500, "histories_with_rewriting": 300, "naming_numeric_desc": 50, "naming_fresh_like": 50, "naming_textual_rev": 50}},
 }
 PROPS["C12"] = {
@@ -179,7 +179,7 @@ PROPS["C12"] = {
             "symmetry count and slot names. Non-trivial = distinct history with >= 2 unions.",
     "assumptions": ["a union that refers to a term not inserted yet inserts it first (so every order is executable)"],
     "quick": [{"variant": "default", "cases": 15000, "params": {"orders": 4}, "timeout": 600}],
-    "thorough": [{"variant": "default", "cases": 250000, "params": {"orders": 8}, "timeout": 3000}, {"variant": "checks", "cases": 30000, "params": {"orders": 4}, "timeout": 3000}],
+    "thorough": [{"variant": "default", "cases": 1000000, "params": {"orders": 8}, "timeout": 3000}, {"variant": "checks", "cases": 120000, "params": {"orders": 4}, "timeout": 3000}],
     "floors": {"any": {"histories_compared": 1500, "orders_compared": 8000}},
 }
 PROPS["C13"] = {
@@ -190,8 +190,8 @@ PROPS["C13"] = {
     "assumptions": ["four-slot leaves are left out of the long histories with rewriting (the crate's shape computation is exponential in the children's group sizes and only yields watchdog timeouts); a second lane runs short union-only histories over few operators including the four-slot leaf"],
     "quick": [{"variant": "default", "cases": 1200, "params": {"case_timeout": 30}, "timeout": 900},
               {"variant": "default", "cases": 4000, "params": {"with_q": 1, "len_lo": 8, "len_hi": 30, "case_timeout": 30}, "timeout": 900}],
-    "thorough": [{"variant": "default", "cases": 60000, "params": {"len_lo": 40, "len_hi": 300, "case_timeout": 60}, "timeout": 3400},
-                 {"variant": "default", "cases": 400000, "params": {"with_q": 1, "len_lo": 8, "len_hi": 40, "case_timeout": 60}, "timeout": 3400}, {"variant": "checks", "cases": 4000, "params": {"case_timeout": 120}, "timeout": 3400}],
+    "thorough": [{"variant": "default", "cases": 12000, "params": {"len_lo": 40, "len_hi": 300, "case_timeout": 60}, "timeout": 3400},
+                 {"variant": "default", "cases": 400000, "params": {"with_q": 1, "len_lo": 8, "len_hi": 40, "case_timeout": 60}, "timeout": 3400}, {"variant": "checks", "cases": 1500, "params": {"case_timeout": 120}, "timeout": 3400}],
     "floors": {"any": {"histories_completed": 800, "equal_pairs_recorded": 100000, "progress_checks": 50000, "extractions_from_old_handles": 50000}},
 }
 PROPS["C17"]["quick"].append({"variant": "default", "cases": 1200, "params": {"lazy": 1}, "worker_prop": "C11", "timeout": 600})
@@ -206,7 +206,7 @@ PROPS["C06"] = {
             "extraction succeeds iff the own fix-point finds a finite term. Non-trivial = distinct history whose e-graph has a cyclic class or a class with e-nodes of different cost.",
     "assumptions": ["the own least fix-point uses eg.enodes and the same cost function; 'new slot' = its printed name occurs nowhere in the e-graph or the user alphabet before extraction"],
     "quick": [{"variant": "default", "cases": 4500, "timeout": 600}, {"variant": "checks", "cases": 1500, "timeout": 600}],
-    "thorough": [{"variant": "default", "cases": 200000, "timeout": 3000}, {"variant": "checks", "cases": 30000, "timeout": 3000}, {"variant": "explanations", "cases": 10000, "timeout": 3000}],
+    "thorough": [{"variant": "default", "cases": 1600000, "timeout": 3000}, {"variant": "checks", "cases": 240000, "timeout": 3000}, {"variant": "explanations", "cases": 80000, "timeout": 3000}],
     "floors": {"any": {"extractions": 30000, "egraphs_with_cyclic_class": 200, "enodes_with_redundant_slots": 500, "queries_with_cost_choice": 5000}},
 }
 PROPS["C05"] = {
@@ -216,7 +216,7 @@ PROPS["C05"] = {
             "nodes, ids, class slots, equality matrix of all handles) must be unchanged by matching. Non-trivial = distinct history with >=1 validated match of a pattern with >=2 nodes / >=2 equations.",
     "assumptions": ["instantiation uses only EGraph::lookup, so 'represented without inserting' is decided by the crate's own lookup, cross-checked by C09"],
     "quick": [{"variant": "default", "cases": 16000, "timeout": 600}],
-    "thorough": [{"variant": "default", "cases": 300000, "timeout": 3000}, {"variant": "checks", "cases": 30000, "timeout": 3000}],
+    "thorough": [{"variant": "default", "cases": 2400000, "timeout": 3000}, {"variant": "checks", "cases": 240000, "timeout": 3000}],
     "floors": {"any": {"matches_validated": 10000, "multimatches_validated": 2000, "patterns_with_matches": 3000, "multipatterns_with_matches": 1000}},
 }
 PROPS["C04"] = {
@@ -227,7 +227,7 @@ PROPS["C04"] = {
             "must be represented and equal to the planted one. Non-trivial = distinct planting with a repeated variable, a symmetric class or presence only through a union.",
     "assumptions": ["the planted substitution is known by construction; out-of-scope plantings are counted as skipped, not judged"],
     "quick": [{"variant": "default", "cases": 40000, "timeout": 600}],
-    "thorough": [{"variant": "default", "cases": 600000, "timeout": 3000}, {"variant": "checks", "cases": 60000, "timeout": 3000}],
+    "thorough": [{"variant": "default", "cases": 4800000, "timeout": 3000}, {"variant": "checks", "cases": 480000, "timeout": 3000}],
     "floors": {"any": {"plantings_judged": 3000, "plantings_with_repeated_variable": 200, "plantings_present_only_through_union": 800, "plantings_with_symmetric_class": 800}},
 }
 
@@ -290,7 +290,7 @@ PROPS["C07"] = {
             "or >= 2 explicit leaves.",
     "assumptions": ["the term-level rule formulations of DESIGN §3.6; get_syn_expr is used only as a renderer of the two sides of each step"],
     "quick": [{"variant": "explanations", "cases": 7200, "timeout": 900}],
-    "thorough": [{"variant": "explanations", "cases": 120000, "params": {"case_timeout": 120}, "timeout": 3400}],
+    "thorough": [{"variant": "explanations", "cases": 720000, "params": {"case_timeout": 120}, "timeout": 3400}],
     "floors": {"any": {"proofs": 3000, "proof_nodes": 15000, "steps_congruence": 300, "steps_transitivity": 3000, "leaves_explicit": 3000, "leaves_by_rule": 60}},
 }
 
@@ -320,7 +320,7 @@ PROPS["C08"]["thorough"].append({"variant": "default", "cases": 600000, "params"
 PROPS["C13"]["quick"].append({"variant": "default", "cases": 6000, "params": {"with_q": 1, "sparse": 1, "len_lo": 8, "len_hi": 30, "case_timeout": 30}, "timeout": 900})
 PROPS["C13"]["quick"].append({"variant": "default", "cases": 600, "params": {"sparse": 1, "case_timeout": 30}, "timeout": 900})
 PROPS["C13"]["thorough"].append({"variant": "default", "cases": 300000, "params": {"with_q": 1, "sparse": 1, "len_lo": 8, "len_hi": 40, "case_timeout": 60}, "timeout": 3400})
-PROPS["C13"]["thorough"].append({"variant": "default", "cases": 30000, "params": {"sparse": 1, "len_lo": 40, "len_hi": 200, "case_timeout": 60}, "timeout": 3400})
+PROPS["C13"]["thorough"].append({"variant": "default", "cases": 8000, "params": {"sparse": 1, "len_lo": 40, "len_hi": 200, "case_timeout": 60}, "timeout": 3400})
 
 # C08 over the other workload languages (LArith, LPay with payloads, LNest with Bind<Bind<..>> and slots around binders)
 PROPS["C08"]["quick"].append({"variant": "default", "cases": 12000, "params": {"mode": "hist", "lang": "all"}, "timeout": 600})
